@@ -7,7 +7,7 @@
                 precede it are executed first and those that follow it are executed
                 eagerly (the real thread runs on to its next labelled operation)
           raw   every token is exactly one step of the model (visible or not)
-   script requests separated by '/':  <expect 0|1><close 0|1>:<w1.w2...|->   ('-' = no request)
+   script requests separated by '/':  <expect 0|1><close 0|1><nobody 0|1>:<w1.w2...|->   ('-' = no request)
    tok    i:<env> (I/O thread) | w<k>:<env> (worker k);  env:  - | s<rs><ws> | r<k>.<frag> | e | n<len>.<k> | q (an access of self.request: answered
           'skip' unless the thread is at the one such access the model represents)
    answer one field per token separated by '|':  X (not enabled) or <label>;<state>
@@ -89,7 +89,7 @@ let parse_script (s : string) : rdesc list =
     match String.split_on_char ':' r with
     | [fl; ws] ->
         let writes = if ws = "-" then [] else List.map (fun t -> nat_of_int (int_of_string t)) (String.split_on_char '.' ws) in
-        { r_expect = (fl.[0] = '1'); r_writes = writes; r_close = (fl.[1] = '1') }
+        { r_expect = (fl.[0] = '1'); r_nobody = (fl.[2] = '1'); r_writes = writes; r_close = (fl.[1] = '1') }
     | _ -> failwith "bad request descriptor") (String.split_on_char '/' s)
 
 let parse_env (s : string) : env =
